@@ -18,31 +18,32 @@ type Profile struct {
 	// handles several messages, incl. winning a term and being deposed again inside one step (the acceptor infers such a
 	// leadership from the messages the Ready carries, raftabs 78faf97)
 	Sleep, Wake                    float64
+	HoldRemoved                    float64 // messages FROM a member whose removal was proposed stay in the network for a while (late answers of an ex-member)
 	HoldSnap, SnapBatch            float64 // MsgSnap kept in the network; MsgSnap + the MsgApp that follows it delivered back to back, then one step
 	PNoMore, PBusy, PRndZero, PAll float64
 	MaxConf                        int
 }
 
 var Profiles = map[string]Profile{
-	"uniform": {Name: "uniform", Tick: 1, Step: 1, Ready: 1, Deliver: 1, Redeliver: 1, Drop: 1, Propose: 1, Conf: 1, Apply: 1,
+	"uniform": {Name: "uniform", HoldRemoved: 0.4, Tick: 1, Step: 1, Ready: 1, Deliver: 1, Redeliver: 1, Drop: 1, Propose: 1, Conf: 1, Apply: 1,
 		Crash: 0.3, CrashMid: 0.5, Restart: 1, Compact: 1, Transfer: 1, SnapRep: 1, Unreach: 1, ReadIndex: 0.3, Partition: 1, Heal: 1,
 		PNoMore: 0.1, PBusy: 0.1, PRndZero: 0.3, PAll: 0.5, MaxConf: 8},
 	"steady": {Name: "steady", Tick: 2, Step: 8, Ready: 12, Deliver: 12, Redeliver: 0.5, Drop: 0.15, Propose: 2, Conf: 0.15, Apply: 4,
 		Crash: 0.02, CrashMid: 0.03, Restart: 1, Compact: 0.3, Transfer: 0.05, SnapRep: 1, Unreach: 0.05, ReadIndex: 0.03, Partition: 0.05, Heal: 0.3,
 		PNoMore: 0.03, PBusy: 0.02, PRndZero: 0.2, PAll: 0.85, MaxConf: 4},
-	"elect": {Name: "elect", Tick: 8, Step: 8, Ready: 10, Deliver: 8, Redeliver: 2, Drop: 1, Propose: 1, Conf: 0.1, Apply: 3,
+	"elect": {Name: "elect", HoldRemoved: 0.5, Tick: 8, Step: 8, Ready: 10, Deliver: 8, Redeliver: 2, Drop: 1, Propose: 1, Conf: 0.1, Apply: 3,
 		Crash: 0.08, CrashMid: 0.12, Restart: 1.5, Compact: 0.1, Transfer: 0.3, SnapRep: 0.5, Unreach: 0.1, ReadIndex: 0.03, Partition: 0.4, Heal: 0.6,
 		PNoMore: 0.02, PBusy: 0.02, PRndZero: 0.7, PAll: 0.7, MaxConf: 3},
 	"crashy": {Name: "crashy", Tick: 4, Step: 8, Ready: 10, Deliver: 10, Redeliver: 1.5, Drop: 0.5, Propose: 2, Conf: 0.15, Apply: 3,
 		Crash: 0.15, CrashMid: 0.45, Restart: 2.5, Compact: 0.4, Transfer: 0.1, SnapRep: 1, Unreach: 0.1, ReadIndex: 0.03, Partition: 0.1, Heal: 0.4,
 		PNoMore: 0.05, PBusy: 0.03, PRndZero: 0.3, PAll: 0.4, MaxConf: 4},
-	"conf": {Name: "conf", Tick: 2, Step: 8, Ready: 12, Deliver: 12, Redeliver: 1, Drop: 0.3, Propose: 1.5, Conf: 1.5, Apply: 4,
+	"conf": {Name: "conf", HoldRemoved: 0.6, Tick: 2, Step: 8, Ready: 12, Deliver: 12, Redeliver: 1, Drop: 0.3, Propose: 1.5, Conf: 1.5, Apply: 4,
 		Crash: 0.05, CrashMid: 0.08, Restart: 1.5, Compact: 0.4, Transfer: 0.15, SnapRep: 1, Unreach: 0.05, ReadIndex: 0.03, Partition: 0.1, Heal: 0.4,
 		PNoMore: 0.03, PBusy: 0.02, PRndZero: 0.2, PAll: 0.75, MaxConf: 12},
 	"snap": {Name: "snap", Tick: 2, Step: 8, Ready: 12, Deliver: 12, Redeliver: 1, Drop: 0.3, Propose: 3, Conf: 0.2, Apply: 5,
 		Crash: 0.05, CrashMid: 0.08, Restart: 1.5, Compact: 1.5, Transfer: 0.1, SnapRep: 2, Unreach: 0.2, ReadIndex: 0.03, Partition: 0.3, Heal: 0.25,
 		PNoMore: 0.05, PBusy: 0.05, PRndZero: 0.2, PAll: 0.75, MaxConf: 4},
-	"paging": {Name: "paging", Tick: 3, Step: 8, Ready: 12, Deliver: 12, Redeliver: 1, Drop: 0.3, Propose: 4, Conf: 1.2, Apply: 1.2,
+	"paging": {Name: "paging", HoldRemoved: 0.5, Tick: 3, Step: 8, Ready: 12, Deliver: 12, Redeliver: 1, Drop: 0.3, Propose: 4, Conf: 1.2, Apply: 1.2,
 		Crash: 0.05, CrashMid: 0.08, Restart: 1.5, Compact: 0.3, Transfer: 0.15, SnapRep: 1, Unreach: 0.05, ReadIndex: 0.03, Partition: 0.25, Heal: 0.4,
 		PNoMore: 0.25, PBusy: 0.02, PRndZero: 0.5, PAll: 0.75, MaxConf: 10},
 	// lagging followers: frequent compaction, snapshots, duplicated old messages, and nodes that are not stepped for a
@@ -72,6 +73,7 @@ type Gen struct {
 	seenSn     map[int]bool
 	forced     []Event
 	forcedCand []Event
+	lateCand   []Event
 	Hist       map[string]int
 }
 
@@ -127,6 +129,7 @@ func (g *Gen) next() (Event, bool) {
 		}
 	}
 	var cs []cand
+	g.lateCand = nil
 	add := func(w float64, ev Event) {
 		if w > 0 {
 			cs = append(cs, cand{w: w, ev: ev})
@@ -202,6 +205,34 @@ func (g *Gen) next() (Event, bool) {
 			m, _ := c.Msg(id)
 			if !views[m.To].Alive || g.blocked[[2]uint64{m.From, m.To}] {
 				continue
+			}
+			if p.HoldRemoved > 0 && g.removed[m.From] && g.deliv[id] == 0 &&
+				(m.Type == pb.MsgVoteResp || m.Type == pb.MsgPreVoteResp || m.Type == pb.MsgAppResp || m.Type == pb.MsgHeartbeatResp) {
+				// an answer of a member whose removal was proposed: kept in the network until the receiver has applied the
+				// removal (the sender is gone from its configuration), then delivered and stepped at once — "conf change
+				// applied on the receiver between its request and the response"
+				if !g.seenSn[id] {
+					g.seenSn[id] = true
+					if g.R.Float64() < p.HoldRemoved {
+						g.hold[id] = 500
+					}
+				}
+				if g.hold[id] > 0 {
+					g.hold[id]--
+					tv := views[m.To]
+					member := false
+					for _, x := range tv.Voters {
+						member = member || x == m.From
+					}
+					for _, x := range tv.Learners {
+						member = member || x == m.From
+					}
+					if !member && !tv.InFlight && g.lateCand == nil {
+						g.lateCand = []Event{{K: "deliver", N: m.To, M: id}, {K: "step", N: m.To, Rnd: g.rnd()}}
+						add(25, Event{K: "_latersp"})
+					}
+					continue
+				}
 			}
 			if m.Type == pb.MsgSnap && g.deliv[id] == 0 {
 				if !g.seenSn[id] {
@@ -346,6 +377,15 @@ func (g *Gen) next() (Event, bool) {
 		return Event{}, false
 	case "_heal":
 		g.blocked = map[[2]uint64]bool{}
+		return Event{}, false
+	case "_latersp":
+		g.forced = g.lateCand
+		g.lateCand = nil
+		for _, f := range g.forced {
+			if f.K == "deliver" {
+				delete(g.hold, f.M)
+			}
+		}
 		return Event{}, false
 	case "_snapbatch":
 		g.forced = g.forcedCand
